@@ -906,6 +906,61 @@ func chainRule(c *core.Ctx) {
 				}
 			}
 		}
+		// success without work: an answer "no error" that does not come out of the loop over the input is given only for
+		// an input found empty (an early `return nil, nil` under any other condition drops the whole text silently)
+		if res := fn.Signature.Results(); res.Len() > 0 && isErrorType(res.At(res.Len()-1).Type()) && len(lookups) > 0 {
+			var loopHead *ssa.BasicBlock
+			for _, l := range prover.New(fn).Loops() {
+				if l.Blocks[lookups[0].Block()] && (loopHead == nil || l.Header.Dominates(loopHead)) {
+					loopHead = l.Header
+				}
+			}
+			written := map[ssa.Value]bool{}
+			for _, b := range fn.Blocks {
+				for _, ins := range b.Instrs {
+					if st, ok := ins.(*ssa.Store); ok {
+						if ia, ok := st.Addr.(*ssa.IndexAddr); ok {
+							written[ia.X] = true
+						}
+					}
+				}
+			}
+			isEmptyInput := func(cond ssa.Value) bool {
+				bo, ok := cond.(*ssa.BinOp)
+				if !ok || bo.Op != token.EQL {
+					return false
+				}
+				for _, pair := range [][2]ssa.Value{{bo.X, bo.Y}, {bo.Y, bo.X}} {
+					if call, ok := pair[0].(*ssa.Call); ok {
+						if bi, ok := call.Call.Value.(*ssa.Builtin); ok && bi.Name() == "len" {
+							if k, ok := constInt(pair[1]); ok && k == 0 {
+								if p, ok := call.Call.Args[0].(*ssa.Parameter); ok && !written[p] {
+									return true
+								}
+							}
+						}
+					}
+					if p, ok := pair[0].(*ssa.Parameter); ok {
+						if k, ok := pair[1].(*ssa.Const); ok && k.Value != nil && k.Value.Kind() == constant.String && constant.StringVal(k.Value) == "" && !written[p] {
+							return true
+						}
+					}
+				}
+				return false
+			}
+			for _, b := range fn.Blocks {
+				ret, ok := b.Instrs[len(b.Instrs)-1].(*ssa.Return)
+				if !ok || len(ret.Results) == 0 || !paths.IsNilConst(ret.Results[len(ret.Results)-1]) {
+					continue
+				}
+				if loopHead != nil && loopHead.Dominates(b) {
+					continue
+				}
+				if !establishedTrue(b, isEmptyInput) {
+					problems = append(problems, "success is answered at "+c.Prog.Pos(ret.Pos())+" without the input having been walked and without the input found empty: the text is dropped silently")
+				}
+			}
+		}
 		// context (decoders): the septet that follows an escape is looked up in the extension table only, every other
 		// septet in the default table only - a fallback from one table to the other accepts pairs the alphabet does not
 		// define (ESC 0x41 as "A") or reads an extension code as a default character
